@@ -94,7 +94,7 @@ fn(H2 + "._create_server_push", params={"stream_id": "int", "path": "bstr", "hea
 fn(H2 + ".initiate", params={"headers": "opt hdrs", "settings": "opt str"}, task="reader", props=("C04", "C13"))
 fn(H2 + ".idle", params={}, returns="bool", modifies=[], props=("C07",))
 
-fn(H2 + ".__init__",
+fn(H2 + ".__init__", inline=True,
    params={"app": "opaque", "config": "obj hypercorn.config:Config", "context": "obj hypercorn.typing:WorkerContext", "task_group": "obj hypercorn.typing:TaskGroup",
            "connection_state": "opaque", "ssl": "bool", "client": "opaque", "server": "opaque", "send": "opaque"},
    ensures=[
